@@ -52,6 +52,9 @@ def run(ctx, rep):
                 d, c = rbytes(rng, rng.randrange(0, 60)), rng.randrange(65536)
                 pkt = ctx.model.one(F_BUILD, [[3], key, [c], d, rbytes(rng, 16)])[1][0]
                 steps.append(("dec", pkt)); want.append((F_PROC, [key, pkt]))
+                for _ in range(rng.randrange(0, 3)):        # an altered copy arriving right after the authentic packet
+                    q = list(pkt); q[rng.randrange(len(q) - 32)] ^= 1 << rng.randrange(8)
+                    steps.append(("alt", q)); want.append((F_PROC, [key, q]))
         got = F.v3_session(key, steps)
         mo2 = ctx.model.batch(want)
         for j, (stp, im, m) in enumerate(zip(steps, got, mo2)):
@@ -63,6 +66,8 @@ def run(ctx, rep):
                 st, outs = ctx.model.one(F_PARSE, [key, im[1]])
                 if st != 0 or outs[0][0] != stp[1] or outs[1] != stp[2]:
                     rep.fail("oracle", "reference-device-rejects-request:later-in-session", inp, {"packet": bytes(im[1]).hex(), "parsed": [st, outs]})
+            if stp[0] == "alt" and im[0] == 0:
+                rep.fail("oracle", "altered-packet-accepted:after-its-original", inp, {"decoded": bytes(im[1]).hex()})
             if stp[0] == "dec" and (im[0] != 0 or im[1] != ctx.model.one(F_PROC, [key, stp[1]])[1][0]):
                 rep.fail("oracle", "response-not-decoded-to-payload:later-in-session", inp, {"result": [im[0], str(im[1])[:80]]})
     # ---- responses built by the reference -----------------------------------------------------------
